@@ -46,7 +46,9 @@ def generate(rng, tier):
     n = 150 if tier == "quick" else 2500
     cases = []
     for _ in range(n):
-        dec = atlas.random_decomposition(rng, max_faces=6 if tier == "thorough" else 4)
+        aligned = rng.random() < 0.4          # every face oriented like the domain
+        dec = atlas.random_decomposition(rng, max_faces=6 if tier == "thorough" else 4,
+                                         pool=["id"] if aligned else None)
         Lx, Ly = dec["Kx"] * dec["N"], dec["Ky"] * dec["N"]
         extra = rng.random() < 0.4
         gd = [["gy", Ly], ["gx", Lx]] + ([["t", 2]] if extra else [])
@@ -54,10 +56,26 @@ def generate(rng, tier):
         gvals = [(13 * i * i + 7 * i + 5) % 101 - 20 for i in range(size)]
         dims = ["face", "yc", "xc"] + (["t"] if extra else [])
         rng.shuffle(dims)
-        cases.append({"dec": dec, "gdims": gd, "gvals": gvals, "dims": dims,
-                      "func": rng.choice(["diff", "interp", "min", "max"]), "axis": rng.choice(["X", "Y"]),
-                      "to": rng.choice(["left", "right"]),
-                      "rule": rng.choice(["extend", "fill", "periodic"]), "fill": rng.choice([0, 4, -3])})
+        case = {"dec": dec, "gdims": gd, "gvals": gvals, "dims": dims,
+                "func": rng.choice(["diff", "interp", "min", "max"]), "axis": rng.choice(["X", "Y"]),
+                "to": rng.choice(["left", "right"]),
+                "rule": rng.choice(["extend", "fill", "periodic"]), "fill": rng.choice([0, 4, -3])}
+        # the order in which the faces are LISTED in the face_connections dictionary is arbitrary
+        listing = list(range(len(dec["conn"])))
+        rng.shuffle(listing)
+        case["listing"] = listing
+        if aligned and rng.random() < 0.8:
+            if rng.random() < 0.5:
+                case["rule"] = "fill"
+            # face axes are the domain's axes: rule and fill value may differ per axis; the
+            # operated axis' ones are what the undivided domain uses
+            other = "Y" if case["axis"] == "X" else "X"
+            case["rule_kw"] = {case["axis"]: case["rule"], other: rng.choice(["extend", "fill", "periodic"])}
+            case["fill_kw"] = {case["axis"]: case["fill"], other: rng.choice([7, -9, 2])}
+            if rng.random() < 0.5:
+                case["rule_kw"] = dict(reversed(list(case["rule_kw"].items())))
+                case["fill_kw"] = dict(reversed(list(case["fill_kw"].items())))
+        cases.append(case)
     return cases
 
 
@@ -80,8 +98,9 @@ def run_impl(case):
                 Fv[f, j, i] = Gf[gy, gx]
     ds = xr.Dataset(coords={"face": np.arange(nf), "xc": np.arange(N), "xg": np.arange(N),
                             "yc": np.arange(N), "yg": np.arange(N)})
+    listed = [d["conn"][i] for i in case.get("listing", range(len(d["conn"])))]
     fc = {"face": {f: {a: (tuple(l) if l else None, tuple(r) if r else None) for a, (l, r) in fal}
-                   for f, fal in d["conn"]}}
+                   for f, fal in listed}}
     try:
         g = Grid(ds, coords={"X": {"center": "xc", "left": "xg", "right": "xg2"} if False else
                              {"center": "xc", "left": "xg"},
@@ -95,7 +114,8 @@ def run_impl(case):
             ds2 = ds.assign_coords(xr_=("xr_", np.arange(N)), yr_=("yr_", np.arange(N)))
             g = Grid(ds2, coords={"X": {"center": "xc", "right": "xr_"}, "Y": {"center": "yc", "right": "yr_"}},
                      face_connections=fc, periodic=False, autoparse_metadata=False)
-        r = getattr(g, case["func"])(da, case["axis"], to=to, boundary=case["rule"], fill_value=case["fill"])
+        r = getattr(g, case["func"])(da, case["axis"], to=to, boundary=case.get("rule_kw", case["rule"]),
+                                     fill_value=case.get("fill_kw", case["fill"]))
         out_order = sorted(r.dims)
         r = r.transpose(*out_order)
         xdim = [x for x in r.dims if x.startswith("x")][0]
